@@ -333,6 +333,39 @@ def window_debiasers(L, S, years_kw=None):
     }
 
 
+def pr_like(nprs, dates, wet=0.45, scale=4.0, shape=0.8):
+    """precipitation-like series (mm/day): exact zeros on dry days, gamma amounts with a seasonal cycle on wet days"""
+    doy = np.array([d.timetuple().tm_yday for d in dates])
+    amounts = nprs.gamma(shape, scale, dates.size) * (1 + 0.5 * np.sin(2 * np.pi * doy / 365.25)) + 0.11
+    return np.where(nprs.random_sample(dates.size) < wet, amounts, 0.0)
+
+
+def window_debiasers_extra(L, S, years_kw=None):
+    """further DETERMINISTIC running-window configurations (no random step): multiplicative scaling, the relative SDM, the
+    censored-gamma precipitation model (Nelder-Mead fit), other distributions, ISIMIP variables without randomisation.
+    name -> (factory, data kind)"""
+    import scipy.stats
+
+    from ibicus.debias import (ECDFM, ISIMIP, DeltaChange, LinearScaling, QuantileDeltaMapping, QuantileMapping,
+                               ScaledDistributionMapping)
+
+    kw = dict(running_window_mode=True, running_window_length=L, running_window_step_length=S)
+    ykw = years_kw or {}
+    return {
+        "LinearScaling-pr": (lambda: LinearScaling.from_variable("pr", **kw), "pr"),
+        "DeltaChange-pr": (lambda: DeltaChange.from_variable("pr", **kw), "pr"),
+        "ScaledDistributionMapping-pr": (lambda: ScaledDistributionMapping.from_variable("pr", **kw), "pr"),
+        # the censored-gamma model randomises values below its censoring threshold: on all-wet data ("pr_wet") no draw is used
+        # and the configuration is deterministic
+        "QuantileDeltaMapping-pr": (lambda: QuantileDeltaMapping.from_variable("pr", **kw, **ykw), "pr_wet"),
+        "QuantileMapping-pr-censored": (lambda: QuantileMapping.for_precipitation(model_type="censored", **kw), "pr_wet"),
+        "ECDFM-pr-censored": (lambda: ECDFM.for_precipitation(model_type="censored", **kw), "pr_wet"),
+        "QuantileMapping-gamma": (lambda: QuantileMapping.from_variable("tas", distribution=scipy.stats.gamma, detrending="no_detrending", **kw), "tas"),
+        "ISIMIP-psl": (lambda: ISIMIP.from_variable("psl", **kw), "tas"),
+        "ISIMIP-rlds": (lambda: ISIMIP.from_variable("rlds", **kw), "tas"),
+    }
+
+
 def debiasers_finite(rng, n, res, problems):
     """the property's consequence on the real debiasers: finite output at every step for finite input"""
     for k in range(n):
